@@ -1,7 +1,7 @@
 from pulser.backend import EmulatorBackend, Results, BitStrings
 from emu_sv.sv_config import SVConfig
 from emu_sv.sv_backend_impl import SVBackendImpl
-from emu_base import PulserData, SequenceData
+from emu_base import HamiltonianType, PulserData, SequenceData
 
 
 class SVBackend(EmulatorBackend):
@@ -37,5 +37,13 @@ class SVBackend(EmulatorBackend):
 
     @staticmethod
     def _run_from_sequence_data(sequence_data: SequenceData, config: SVConfig) -> Results:
+        if sequence_data.hamiltonian_type != HamiltonianType.Rydberg or set(
+            sequence_data.eigenstates
+        ) != {"r", "g"}:
+            raise NotImplementedError(
+                "emu-sv only emulates two-level sequences in the ground-rydberg basis; got "
+                f"interaction {sequence_data.hamiltonian_type} with eigenstates "
+                f"{sequence_data.eigenstates}. Consider using the emu_mps backend."
+            )
         impl = SVBackendImpl(config, sequence_data)
         return impl._run()
